@@ -98,9 +98,6 @@ struct Case {
     y: Vec<usize>,
     weights: Option<Vec<f32>>,
     hash_seed: u64,
-    /// run in a child process (the fit may abort the process by overflowing the stack)
-    #[serde(default)]
-    isolate: bool,
     /// every configuration is fitted, in this order, on one fresh thread
     configs: Vec<Config>,
 }
@@ -130,7 +127,6 @@ struct Lite {
     weights: u8, // 0 none, 1 alternating 1,2,1,2.., 2 all 0.5
     grid: u8,    // 0 full, 1 small
     hash_seed: u64,
-    isolate: bool,
 }
 
 fn grid(kind: u8, weights: u8) -> Vec<Config> {
@@ -157,7 +153,7 @@ fn grid(kind: u8, weights: u8) -> Vec<Config> {
     out
 }
 
-fn expand(l: &Lite) -> Case {
+fn expand(l: &Lite, with_configs: bool) -> Case {
     let n = l.xi.len();
     let weights = match l.weights {
         0 => None,
@@ -172,8 +168,7 @@ fn expand(l: &Lite) -> Case {
         y: l.y.iter().map(|&k| k as usize).collect(),
         weights,
         hash_seed: l.hash_seed,
-        isolate: l.isolate,
-        configs: grid(l.grid, l.weights),
+        configs: if with_configs { grid(l.grid, l.weights) } else { Vec::new() },
     }
 }
 
@@ -794,7 +789,7 @@ fn check_one<F: Float, L: Label + Default + std::fmt::Debug>(
     }
 }
 
-fn run_typed<F: Float, L: Label + Default + std::fmt::Debug>(case: &Case, names: &[L], start: usize, sink: &mut dyn FnMut(Event)) {
+fn run_typed<F: Float, L: Label + Default + std::fmt::Debug>(case: &Case, names: &[L], skip: &[usize], sink: &mut dyn FnMut(Event)) {
     let n = case.x.len();
     let d = case.x[0].len();
     let recs: Array2<F> = Array2::from_shape_fn((n, d), |(i, j)| F::cast(case.x[i][j]));
@@ -814,7 +809,10 @@ fn run_typed<F: Float, L: Label + Default + std::fmt::Debug>(case: &Case, names:
     distinct.dedup();
     let data = Data { f32_subject: case.float == "f32", xs, y: &case.y, w, names, n_classes };
     let trace = std::env::var("C14_TRACE").is_ok();
-    for (ci, cfg) in case.configs.iter().enumerate().skip(start) {
+    for (ci, cfg) in case.configs.iter().enumerate() {
+        if skip.contains(&ci) {
+            continue;
+        }
         sink(Event::Start(ci));
         let mut st = Stats::default();
         let mut viols: Vec<RawViol> = Vec::new();
@@ -830,8 +828,8 @@ fn run_typed<F: Float, L: Label + Default + std::fmt::Debug>(case: &Case, names:
     }
 }
 
-/// Runs the configurations `start..` of the case on the calling thread.
-fn run_configs(case: &Case, start: usize, sink: &mut dyn FnMut(Event)) {
+/// Runs the configurations of the case (except those in `skip`) on the calling thread.
+fn run_configs(case: &Case, skip: &[usize], sink: &mut dyn FnMut(Event)) {
     if case.x.is_empty() || case.x[0].is_empty() || case.x.iter().any(|r| r.len() != case.x[0].len()) || case.y.len() != case.x.len() {
         println!("MACHINERY-ERROR malformed case");
         std::process::exit(2);
@@ -840,12 +838,12 @@ fn run_configs(case: &Case, start: usize, sink: &mut dyn FnMut(Event)) {
     let usizes: Vec<usize> = (0..8).collect();
     let bools = [false, true];
     match (case.float.as_str(), case.label_type.as_str()) {
-        ("f64", "usize") => run_typed::<f64, usize>(case, &usizes, start, sink),
-        ("f32", "usize") => run_typed::<f32, usize>(case, &usizes, start, sink),
-        ("f64", "string") => run_typed::<f64, String>(case, &strings, start, sink),
-        ("f32", "string") => run_typed::<f32, String>(case, &strings, start, sink),
-        ("f64", "bool") => run_typed::<f64, bool>(case, &bools, start, sink),
-        ("f32", "bool") => run_typed::<f32, bool>(case, &bools, start, sink),
+        ("f64", "usize") => run_typed::<f64, usize>(case, &usizes, skip, sink),
+        ("f32", "usize") => run_typed::<f32, usize>(case, &usizes, skip, sink),
+        ("f64", "string") => run_typed::<f64, String>(case, &strings, skip, sink),
+        ("f32", "string") => run_typed::<f32, String>(case, &strings, skip, sink),
+        ("f64", "bool") => run_typed::<f64, bool>(case, &bools, skip, sink),
+        ("f32", "bool") => run_typed::<f32, bool>(case, &bools, skip, sink),
         _ => {
             println!("MACHINERY-ERROR bad case types");
             std::process::exit(2);
@@ -853,9 +851,9 @@ fn run_configs(case: &Case, start: usize, sink: &mut dyn FnMut(Event)) {
     }
 }
 
-/// Hash keys of the thread that runs configurations `start..` of a case.
-fn thread_seed(case: &Case, start: usize) -> u64 {
-    case.hash_seed.wrapping_add((start as u64) << 32)
+/// Hash keys of the fresh thread that runs a case, given how many configurations are skipped.
+fn thread_seed(case: &Case, skipped: usize) -> u64 {
+    case.hash_seed.wrapping_add((skipped as u64) << 32)
 }
 
 /// At most two violations per signature and case are turned into (bulky, replayable) artefacts; the
@@ -897,11 +895,56 @@ fn has_midpoint_rounding_up(case: &Case) -> bool {
     false
 }
 
-/// Child-process side: run configurations `start..`, streaming one line per event.
-fn child_main() -> ! {
-    use std::io::{Read, Write};
+// ------------------------------------------------------------------------------------------
+// worker processes: the subject runs in child processes, because TreeNode::fit can recurse without
+// end and a stack overflow aborts the whole process (not catchable by catch_unwind)
+// ------------------------------------------------------------------------------------------
+
+static CURRENT_CONFIG: std::sync::atomic::AtomicUsize = std::sync::atomic::AtomicUsize::new(usize::MAX);
+
+extern "C" {
+    fn signal(signum: i32, handler: extern "C" fn(i32)) -> usize;
+    fn write(fd: i32, buf: *const u8, count: usize) -> isize;
+}
+
+/// SIGABRT handler of a worker (std's stack-overflow handler ends in abort()): tells the parent,
+/// with async-signal-safe means only, which configuration was running. abort() then kills the process.
+extern "C" fn on_abort(_sig: i32) {
+    let mut ci = CURRENT_CONFIG.load(std::sync::atomic::Ordering::Relaxed);
+    let mut digits = [0u8; 24];
+    let mut nd = 0;
+    if ci == usize::MAX {
+        return;
+    }
+    loop {
+        digits[nd] = b'0' + (ci % 10) as u8;
+        nd += 1;
+        ci /= 10;
+        if ci == 0 {
+            break;
+        }
+    }
+    let mut buf = [0u8; 32];
+    buf[0] = b'\n';
+    buf[1] = b'A';
+    buf[2] = b' ';
+    let mut k = 3;
+    while nd > 0 {
+        nd -= 1;
+        buf[k] = digits[nd];
+        k += 1;
+    }
+    buf[k] = b'\n';
+    unsafe {
+        write(1, buf.as_ptr(), k + 1);
+    }
+}
+
+/// Worker side: one request per line {"case", "grid"?, "skip"}; answer "R {json}" per case.
+fn worker_main() -> ! {
+    use std::io::{BufRead, Write};
     std::panic::set_hook(Box::new(|_| {}));
-    // an aborting child must not leave core files behind
+    // an aborting worker must not leave core files behind
     #[repr(C)]
     struct RLimit {
         cur: u64,
@@ -912,134 +955,188 @@ fn child_main() -> ! {
     }
     unsafe {
         setrlimit(4 /* RLIMIT_CORE */, &RLimit { cur: 0, max: 0 });
+        signal(6 /* SIGABRT */, on_abort);
     }
-    let mut txt = String::new();
-    std::io::stdin().read_to_string(&mut txt).expect("stdin");
-    let v: Value = serde_json::from_str(&txt).expect("child input");
-    let case: Case = serde_json::from_value(v["case"].clone()).expect("child case");
-    let start = v["start"].as_u64().unwrap_or(0) as usize;
-    on_fresh_thread(thread_seed(&case, start), || {
-        let mut sink = |e: Event| {
-            let out = std::io::stdout();
-            let mut o = out.lock();
-            match e {
-                Event::Start(ci) => writeln!(o, "S {}", ci).unwrap(),
-                Event::Done(ci, v, st) => writeln!(o, "D {} {}", ci, json!({"v": v, "st": st})).unwrap(),
-            }
-            o.flush().unwrap();
-        };
-        run_configs(&case, start, &mut sink);
-    });
-    std::process::exit(0);
+    if !hash_control_works() {
+        println!("MACHINERY-ERROR the in-binary getrandom override does not control RandomState keys");
+        std::process::exit(2);
+    }
+    let stdin = std::io::stdin();
+    let mut line = String::new();
+    loop {
+        line.clear();
+        match stdin.lock().read_line(&mut line) {
+            Ok(0) | Err(_) => std::process::exit(0),
+            Ok(_) => {}
+        }
+        let req: Value = serde_json::from_str(&line).expect("worker request");
+        let mut case: Case = serde_json::from_value(req["case"].clone()).expect("worker case");
+        if let Some(g) = req.get("grid").and_then(|g| g.as_array()) {
+            case.configs = grid(g[0].as_u64().unwrap() as u8, g[1].as_u64().unwrap() as u8);
+        }
+        let skip: Vec<usize> = req["skip"].as_array().map(|a| a.iter().filter_map(|x| x.as_u64().map(|v| v as usize)).collect()).unwrap_or_default();
+        let (st, raw) = on_fresh_thread(thread_seed(&case, skip.len()), || {
+            let mut st = Stats::default();
+            let mut raw: Vec<RawViol> = Vec::new();
+            let mut sink = |e: Event| match e {
+                Event::Start(ci) => CURRENT_CONFIG.store(ci, std::sync::atomic::Ordering::Relaxed),
+                Event::Done(_, v, s) => {
+                    raw.extend(v);
+                    st.merge(&s);
+                }
+            };
+            run_configs(&case, &skip, &mut sink);
+            (st, raw)
+        });
+        CURRENT_CONFIG.store(usize::MAX, std::sync::atomic::Ordering::Relaxed);
+        let out = std::io::stdout();
+        let mut o = out.lock();
+        writeln!(o, "R {}", json!({"st": st, "v": raw})).expect("worker stdout");
+        o.flush().expect("worker flush");
+    }
 }
 
-/// Parent side of an isolated case: a child process runs the configurations; when it is killed by a
-/// signal (stack overflow -> SIGABRT) the configuration it had started is reported and a new child
-/// continues with the next one.
-fn run_isolated(case: &Case, viols: &mut Vec<Violation>) -> Stats {
-    use std::io::Write;
-    use std::os::unix::process::ExitStatusExt;
+struct Worker {
+    child: std::process::Child,
+    stdin: std::process::ChildStdin,
+    stdout: std::io::BufReader<std::process::ChildStdout>,
+}
+
+thread_local!(static WORKER: std::cell::RefCell<Option<Worker>> = const { std::cell::RefCell::new(None) });
+
+fn spawn_worker() -> Worker {
     use std::process::{Command, Stdio};
     let exe = std::env::current_exe().expect("current_exe");
-    let mut st = Stats::default();
-    let mut raw: Vec<RawViol> = Vec::new();
-    let mut start = 0usize;
-    while start < case.configs.len() {
-        let mut child = Command::new(&exe)
-            .arg("--c14-child")
-            .stdin(Stdio::piped())
-            .stdout(Stdio::piped())
-            .stderr(Stdio::null())
-            .spawn()
-            .expect("spawn child");
-        st.child_processes += 1;
-        {
-            let mut si = child.stdin.take().unwrap();
-            si.write_all(json!({"case": case, "start": start}).to_string().as_bytes()).expect("child stdin");
+    let mut child = Command::new(&exe)
+        .arg("--c14-worker")
+        .stdin(Stdio::piped())
+        .stdout(Stdio::piped())
+        .stderr(if std::env::var("C14_TRACE").is_ok() { Stdio::inherit() } else { Stdio::null() })
+        .spawn()
+        .expect("spawn worker");
+    let stdin = child.stdin.take().unwrap();
+    let stdout = std::io::BufReader::new(child.stdout.take().unwrap());
+    Worker { child, stdin, stdout }
+}
+
+enum WorkerAnswer {
+    Done(Stats, Vec<RawViol>),
+    /// the worker died; the configuration its SIGABRT handler named, and the signal that killed it
+    Died(Option<usize>, Option<i32>, String),
+}
+
+fn ask_worker(req: &str, st: &mut Stats) -> WorkerAnswer {
+    use std::io::{BufRead, Write};
+    use std::os::unix::process::ExitStatusExt;
+    WORKER.with(|cell| {
+        let mut slot = cell.borrow_mut();
+        if slot.is_none() {
+            *slot = Some(spawn_worker());
+            st.child_processes += 1;
         }
-        let out = child.wait_with_output().expect("child wait");
-        let text = String::from_utf8_lossy(&out.stdout);
-        let mut started: Option<usize> = None;
-        let mut last_done: Option<usize> = None;
-        for line in text.lines() {
-            if let Some(r) = line.strip_prefix("S ") {
-                started = r.trim().parse().ok();
-            } else if let Some(r) = line.strip_prefix("D ") {
-                let (ci, js) = r.split_once(' ').unwrap_or((r, "{}"));
-                let ci: usize = ci.parse().unwrap_or(usize::MAX);
-                if let Ok(v) = serde_json::from_str::<Value>(js) {
-                    if let Ok(vs) = serde_json::from_value::<Vec<RawViol>>(v["v"].clone()) {
-                        raw.extend(vs);
-                    }
-                    if let Ok(s) = serde_json::from_value::<Stats>(v["st"].clone()) {
-                        st.merge(&s);
-                    }
+        let w = slot.as_mut().unwrap();
+        let sent = w.stdin.write_all(req.as_bytes()).and_then(|_| w.stdin.write_all(b"\n")).and_then(|_| w.stdin.flush());
+        let mut marker: Option<usize> = None;
+        let mut tail = String::new();
+        if sent.is_ok() {
+            let mut line = String::new();
+            loop {
+                line.clear();
+                match w.stdout.read_line(&mut line) {
+                    Ok(0) | Err(_) => break,
+                    Ok(_) => {}
                 }
-                last_done = Some(ci);
+                if let Some(js) = line.strip_prefix("R ") {
+                    if let Ok(v) = serde_json::from_str::<Value>(js) {
+                        let s: Stats = serde_json::from_value(v["st"].clone()).unwrap_or_default();
+                        let r: Vec<RawViol> = serde_json::from_value(v["v"].clone()).unwrap_or_default();
+                        return WorkerAnswer::Done(s, r);
+                    }
+                } else if let Some(k) = line.strip_prefix("A ") {
+                    marker = k.trim().parse().ok();
+                }
+                if !line.trim().is_empty() {
+                    tail = line.trim().chars().take(200).collect();
+                }
             }
         }
-        if out.status.success() {
-            break;
-        }
-        match (out.status.signal(), started) {
-            (Some(sig), Some(k)) if last_done != Some(k) => {
-                let cfg = &case.configs[k];
+        // the worker is gone
+        let mut w = slot.take().unwrap();
+        drop(w.stdin);
+        let status = w.child.wait().ok();
+        WorkerAnswer::Died(marker, status.and_then(|s| s.signal()), tail)
+    })
+}
+
+/// Runs one case in this thread's worker process. `grid`: the case's configurations are that shared
+/// grid (sent by reference); otherwise `case.configs` is sent literally. When the worker is killed
+/// by a signal, the configuration it was running is reported and the case is run again without it.
+fn run_in_worker(case: &Case, grid_ref: Option<(u8, u8)>, st: &mut Stats) -> Vec<RawViol> {
+    let mut skip: Vec<usize> = Vec::new();
+    let mut aborted: Vec<RawViol> = Vec::new();
+    loop {
+        let req = json!({"case": case, "grid": grid_ref.map(|g| vec![g.0, g.1]), "skip": skip}).to_string();
+        match ask_worker(&req, st) {
+            WorkerAnswer::Done(s, mut raw) => {
+                st.merge(&s);
+                raw.extend(aborted);
+                return raw;
+            }
+            WorkerAnswer::Died(Some(k), Some(sig), _) if !skip.contains(&k) => {
+                let configs = match grid_ref {
+                    Some(g) if case.configs.is_empty() => grid(g.0, g.1),
+                    _ => case.configs.clone(),
+                };
+                if k >= configs.len() {
+                    println!("MACHINERY-ERROR C14 worker named configuration {} of {}", k, configs.len());
+                    std::process::exit(2);
+                }
+                let cfg = &configs[k];
                 let narrow = cfg.max_depth.is_none() && has_midpoint_rounding_up(case);
                 st.evals += 1;
                 st.nontrivial += 1;
                 st.violating_evals += 1;
                 st.child_aborts += 1;
-                raw.push(RawViol {
+                aborted.push(RawViol {
                     sig: if narrow { "fit.unbounded_recursion.threshold_on_upper_data_value".into() } else { "fit.process_abort".into() },
                     what: format!(
-                        "[config #{} {:?}] the process running fit + verification was killed by signal {} (stack overflow of the recursive TreeNode::fit aborts the process){}",
+                        "[config #{} {:?}] the process running fit + verification was killed by signal {} (a stack overflow of the recursive TreeNode::fit aborts the process){}",
                         k,
                         cfg,
                         sig,
                         if narrow { "; the data contain two adjacent floats whose midpoint rounds onto the larger one, so a split sends all its rows left and is fitted again on the same rows without end (max_depth = None)" } else { "" }
                     ),
-                    at: json!({"config_index": k, "config": cfg, "detected_by": "child process killed by signal"}),
+                    at: json!({"config_index": k, "config": cfg, "detected_by": "worker process killed by signal"}),
                 });
-                start = k + 1;
+                skip.push(k);
             }
-            _ => {
-                println!("MACHINERY-ERROR isolated child of C14 failed without a signal / progress marker: status {:?}, stdout tail {:?}", out.status, text.lines().last());
+            WorkerAnswer::Died(marker, sig, tail) => {
+                println!("MACHINERY-ERROR C14 worker process died without naming a new configuration (marker {:?}, signal {:?}, last output {:?})", marker, sig, tail);
                 std::process::exit(2);
             }
         }
     }
+}
+
+/// Pure function of the case: all configurations, in order, on one fresh thread (of a worker
+/// process) whose hash keys derive from `case.hash_seed`.
+fn run_case(case: &Case, viols: &mut Vec<Violation>) -> Stats {
+    let mut st = Stats::default();
+    let raw = run_in_worker(case, None, &mut st);
     attach(case, raw, viols, &mut st);
     st
 }
 
-/// Pure function of the case: all configurations, in order, on one fresh thread whose hash keys
-/// derive from `case.hash_seed` (isolated cases: in child processes, see `run_isolated`).
-fn run_case(case: &Case, viols: &mut Vec<Violation>) -> Stats {
-    if case.isolate {
-        return run_isolated(case, viols);
+/// Sweep form of `run_case`: the grid travels by reference and is only spelled out for artefacts.
+fn run_lite(l: &Lite, viols: &mut Vec<Violation>) -> (Case, Stats) {
+    let mut case = expand(l, false);
+    let mut st = Stats::default();
+    let raw = run_in_worker(&case, Some((l.grid, l.weights)), &mut st);
+    if !raw.is_empty() {
+        case.configs = grid(l.grid, l.weights);
+        attach(&case, raw, viols, &mut st);
     }
-    let runner = |seed: u64, f: &mut (dyn FnMut() -> (Stats, Vec<RawViol>) + Send)| -> (Stats, Vec<RawViol>) {
-        if std::env::var("C14_EXPERIMENT_NO_THREAD").is_ok() {
-            f()
-        } else {
-            on_fresh_thread(seed, f)
-        }
-    };
-    let (st, raw) = runner(thread_seed(case, 0), &mut || {
-        let mut st = Stats::default();
-        let mut raw = Vec::new();
-        let mut sink = |e: Event| {
-            if let Event::Done(_, v, s) = e {
-                raw.extend(v);
-                st.merge(&s);
-            }
-        };
-        run_configs(case, 0, &mut sink);
-        (st, raw)
-    });
-    let mut st = st;
-    attach(case, raw, viols, &mut st);
-    st
+    (case, st)
 }
 
 fn replay_value(v: &Value) -> Vec<Violation> {
@@ -1085,7 +1182,7 @@ fn datasets(a: usize, n: usize, max_classes: usize) -> Vec<(Vec<u8>, Vec<u8>)> {
     out
 }
 
-fn push_family(out: &mut Vec<Lite>, family: &'static str, isolate: bool, alphabet: &[Vec<f64>], sets: &[(Vec<u8>, Vec<u8>)], variants: &[Variant]) {
+fn push_family(out: &mut Vec<Lite>, family: &'static str, alphabet: &[Vec<f64>], sets: &[(Vec<u8>, Vec<u8>)], variants: &[Variant]) {
     let alphabet = std::sync::Arc::new(alphabet.to_vec());
     for (xi, y) in sets {
         let classes = y.iter().max().map(|m| m + 1).unwrap_or(0);
@@ -1093,7 +1190,7 @@ fn push_family(out: &mut Vec<Lite>, family: &'static str, isolate: bool, alphabe
             if v.label == "bool" && classes > 2 {
                 continue;
             }
-            out.push(Lite { family, float: v.float, label_type: v.label, alphabet: alphabet.clone(), xi: xi.clone(), y: y.clone(), weights: v.weights, grid: v.grid, hash_seed: v.hash_seed, isolate });
+            out.push(Lite { family, float: v.float, label_type: v.label, alphabet: alphabet.clone(), xi: xi.clone(), y: y.clone(), weights: v.weights, grid: v.grid, hash_seed: v.hash_seed });
         }
     }
 }
@@ -1132,12 +1229,12 @@ fn enumerate_cases(ctx: &Ctx) -> Vec<Lite> {
             vars.push(v("f64", "usize", 0, 0, 1));
             vars.push(v("f64", "string", 1, 0, 2));
         }
-        push_family(&mut out, "1f_lattice3", false, &alpha_a, &sets, &vars);
+        push_family(&mut out, "1f_lattice3", &alpha_a, &sets, &vars);
     }
     if ctx.quick() {
         // quick only (thorough has all labelings of 6 rows above): 6 rows with 5 or 6 distinct classes
         let sets: Vec<_> = datasets(3, 6, 6).into_iter().filter(|(_, y)| y.iter().max().map_or(0, |m| *m as usize + 1) >= 5).collect();
-        push_family(&mut out, "1f_lattice3_n6_5to6_classes", false, &alpha_a, &sets, &[v("f64", "usize", 0, 1, 0)]);
+        push_family(&mut out, "1f_lattice3_n6_5to6_classes", &alpha_a, &sets, &[v("f64", "usize", 0, 1, 0)]);
     }
     // A4: one feature over {0,1,2,3} (room for three nested splits)
     let alpha_a4 = pts(1, 4);
@@ -1147,7 +1244,7 @@ fn enumerate_cases(ctx: &Ctx) -> Vec<Lite> {
         if ctx.thorough() && n <= 4 {
             vars.push(v("f32", "string", 1, 0, 0));
         }
-        push_family(&mut out, "1f_lattice4", false, &alpha_a4, &sets, &vars);
+        push_family(&mut out, "1f_lattice4", &alpha_a4, &sets, &vars);
     }
     // B: two features over {0,1}^2
     let alpha_b = pts(2, 2);
@@ -1158,7 +1255,7 @@ fn enumerate_cases(ctx: &Ctx) -> Vec<Lite> {
         if n <= 4 && (n <= 3 || ctx.thorough()) {
             vars.push(v("f32", "string", 2, 0, 0));
         }
-        push_family(&mut out, "2f_lattice2x2", false, &alpha_b, &sets, &vars);
+        push_family(&mut out, "2f_lattice2x2", &alpha_b, &sets, &vars);
     }
     // D: two features over {0,1,2}^2 (rows of other subtrees lie between the rows of a node)
     let alpha_d = pts(2, 3);
@@ -1171,7 +1268,7 @@ fn enumerate_cases(ctx: &Ctx) -> Vec<Lite> {
         if n <= 2 || (n == 3 && ctx.thorough()) {
             vars.push(v("f64", "usize", 1, 0, 0));
         }
-        push_family(&mut out, "2f_lattice3x3", false, &alpha_d, &sets, &vars);
+        push_family(&mut out, "2f_lattice3x3", &alpha_d, &sets, &vars);
     }
     // C: adjacency family: four consecutive floats whose spacing is above the subject's 1e-5
     // "equal values" margin, so that the midpoint of two neighbours rounds onto one of them
@@ -1189,7 +1286,7 @@ fn enumerate_cases(ctx: &Ctx) -> Vec<Lite> {
             if n <= 2 || (ctx.thorough() && n <= 3) {
                 vars.push(v(fl, "string", 1, 1, 0));
             }
-            push_family(&mut out, fam, true, &alpha, &sets, &vars);
+            push_family(&mut out, fam, &alpha, &sets, &vars);
         }
     }
     // E: values closer than / about the 1e-5 margin
@@ -1200,14 +1297,14 @@ fn enumerate_cases(ctx: &Ctx) -> Vec<Lite> {
         if n <= 3 || (ctx.thorough() && n <= 4) {
             vars.push(v("f32", "usize", 1, 1, 0));
         }
-        push_family(&mut out, "near_equal_1e-5", false, &alpha_e, &sets, &vars);
+        push_family(&mut out, "near_equal_1e-5", &alpha_e, &sets, &vars);
     }
     out
 }
 
 fn main() {
-    if std::env::args().any(|a| a == "--c14-child") {
-        child_main();
+    if std::env::args().any(|a| a == "--c14-worker") {
+        worker_main();
     }
     let ctx = Ctx::new("C14", Level::Exploration);
     if !hash_control_works() {
@@ -1219,7 +1316,7 @@ fn main() {
         "case = (dataset, float type, label type, sample weights, hash seed) fitted under every configuration of a grid; \
          datasets: ALL value sequences of n rows over the family's alphabet x ALL labelings up to renaming of the classes (restricted growth strings, <= 6 classes; \
          includes duplicates with conflicting labels, constant features, single-class sets): 1 feature over {0,1,2} (n <= 5 quick / 6 thorough; quick adds n = 6 with >= 5 classes on the small grid), 1 feature over {0,1,2,3} (n <= 4 / 5), \
-         2 features over {0,1}^2 (n <= 4 / 5), 2 features over {0,1,2}^2 (n <= 3 / 4), adjacency families = 4 consecutive floats at 2^24 and 256 (f32), 2^53 and 2^40 (f64) (n <= 3 / 4, <= 3 classes; run in child processes because fit can overflow the stack), \
+         2 features over {0,1}^2 (n <= 4 / 5), 2 features over {0,1,2}^2 (n <= 3 / 4), adjacency families = 4 consecutive floats at 2^24 and 256 (f32), 2^53 and 2^40 (f64) (n <= 3 / 4, <= 3 classes; fit can overflow the stack there), \
          near-equal family {0, 8e-6, 1.6e-5, 2.6e-5, 1} (n <= 4 / 5); label types usize / bool / String; weights none / 1,2,1,2.. / all 0.5; \
          full grid = {gini, entropy} x max_depth {None,0,1,2} x min_weight_split {1,2,3} x min_weight_leaf {1,2} ({0.5,1} with weights 0.5) x min_impurity_decrease {1e-5,0.1,0.3} (144), \
          small grid (adjacency / near-equal) = 2 x {None,1,2} x {1,2} x {1,2} x {1e-5,0.1} (48). \
@@ -1231,6 +1328,7 @@ fn main() {
     ctx.assume("min_weight_split is checked against the NUMBER of rows reaching the node (as the property states and the code does); nodes whose total WEIGHT is below it are only counted (parameter doc speaks of weight)");
     ctx.assume("feature importances: >= 0, finite, sum to 1 within 1e-9 (f64) / 1e-5 (f32), only demanded when the tree has a split; mean_impurity_decrease vs own mean of reported decreases within 1e-6");
     ctx.assume("hash-map order is a controlled input: in-binary getrandom override + one fresh thread per case keyed by the case's hash_seed (self-tested at start-up); VERIF_SEED plays no role");
+    ctx.assume("the subject runs in worker processes (one per harness thread): TreeNode::fit can recurse without end and the resulting stack overflow aborts the process; a worker killed by a signal = violation of the configuration it was running (named by its SIGABRT handler), the case is then re-run without that configuration; before an unbounded fit the same configuration is fitted with max_depth = n + 1 and a tree deeper than n - 1 is reported instead of running the unbounded fit");
     ctx.assume("empty datasets, non-finite values, zero / negative weights and min_weight_leaf <= 0 are outside the enumerated domain");
 
     let mut cases = enumerate_cases(&ctx);
@@ -1250,9 +1348,8 @@ fn main() {
     let done = std::sync::atomic::AtomicU64::new(0);
     let fam_nontrivial: Mutex<std::collections::BTreeMap<&str, u64>> = Mutex::new(Default::default());
     par_sweep(&ctx, "tree sweep", &cases, |l| {
-        let case = expand(l);
         let mut v = Vec::new();
-        let st = run_case(&case, &mut v);
+        let (case, st) = run_lite(l, &mut v);
         ctx.evals(st.evals, st.nontrivial);
         for _ in 0..st.indeterminate {
             ctx.indeterminate();
@@ -1261,7 +1358,7 @@ fn main() {
         totals.lock().unwrap().merge(&st);
         *fam_nontrivial.lock().unwrap().entry(l.family).or_default() += st.nontrivial;
         done.fetch_add(1, std::sync::atomic::Ordering::Relaxed);
-        ctx.sample(|| json!({"family": case.family, "float": case.float, "label_type": case.label_type, "x": case.x, "y": case.y, "weights": case.weights, "hash_seed": case.hash_seed, "isolate": case.isolate, "n_configs": case.configs.len(), "first_config": case.configs[0]}));
+        ctx.sample(|| json!({"family": case.family, "float": case.float, "label_type": case.label_type, "x": case.x, "y": case.y, "weights": case.weights, "hash_seed": case.hash_seed, "grid": if l.grid == 0 { "full (144 configurations)" } else { "small (48 configurations)" }}));
     });
     let t = totals.lock().unwrap().clone();
     let done = done.load(std::sync::atomic::Ordering::Relaxed);
@@ -1281,8 +1378,8 @@ fn main() {
     ctx.extra("max_abs_error_of_reported_impurity_decrease", json!(t.max_decrease_err));
     ctx.extra("evaluations_with_a_violation", json!(t.violating_evals));
     ctx.extra("violations_counted_but_not_stored_beyond_2_per_signature_and_case", json!(t.violations_not_stored));
-    ctx.extra("child_processes_run_for_isolated_cases", json!(t.child_processes));
-    ctx.extra("child_processes_killed_by_stack_overflow", json!(t.child_aborts));
+    ctx.extra("worker_processes_started", json!(t.child_processes));
+    ctx.extra("worker_processes_killed_by_stack_overflow", json!(t.child_aborts));
     ctx.extra("fits_by_number_of_distinct_classes", json!({"1": t.distinct_class_counts[1], "2": t.distinct_class_counts[2], "3": t.distinct_class_counts[3], "4": t.distinct_class_counts[4], "5": t.distinct_class_counts[5], "6": t.distinct_class_counts[6]}));
     ctx.finish(&replay_value);
 }
